@@ -119,7 +119,9 @@ def find_peaks(
                 continue
 
             # Compute final quantities
-            p["length"] = (peak_endtime - p["time"] + right_extension) / dt
+            # Round up: the peak must cover its last hit and the right extension
+            # also if the extensions are not multiples of dt
+            p["length"] = (peak_endtime - p["time"] + right_extension + dt - 1) // dt
             if p["length"] <= 0:
                 # This is most likely caused by a negative dt
                 raise ValueError("Caught attempt to save nonpositive peak length?!")
